@@ -73,8 +73,9 @@ def schema_files(s) -> dict:
         body += '<xs:element name="n" type="t:Node"/>'
     if s["wild"] != "none":
         body += f'<xs:element name="end" type="xs:string"/><xs:any namespace="##{s["wild"]}" processContents="lax" minOccurs="0"/>'
+    mixed = ' mixed="true"' if s.get("mixed") else ""
     main = (
-        f'<xs:element name="root"><xs:complexType><xs:sequence>{body}</xs:sequence>'
+        f'<xs:element name="root"><xs:complexType{mixed}><xs:sequence>{body}</xs:sequence>'
         + ('<xs:attributeGroup ref="t:AG"/>' if s["agrp"] else "")
         + "</xs:complexType></xs:element>"
         '<xs:group name="G"><xs:sequence><xs:element name="p" type="xs:int"/><xs:element name="q" type="xs:string" minOccurs="0"/></xs:sequence></xs:group>'
@@ -108,7 +109,18 @@ def doc_xml(s, doc) -> str:
 
     decl = f' xmlns:t="{T}" xmlns:xsi="{XSI}" xmlns:f="urn:f"' + (f' xmlns:l="{L}"' if L != T else "")
     attrs = "".join(f' {a["name"]}="{a["v"]}"' for a in doc["attrs"])
-    return f"<t:root{decl}{attrs}>" + "".join(el(k) for k in doc["kids"]) + "</t:root>"
+    texts = doc.get("texts") or [""] * (len(doc["kids"]) + 1)
+    body = "".join(texts[j] + el(k) for j, k in enumerate(doc["kids"])) + texts[len(doc["kids"])]
+    return f"<t:root{decl}{attrs}>{body}</t:root>"
+
+
+def canon_mixed(el):
+    """Root of a mixed type: the full content sequence (text pieces and elements, in order)."""
+    seq = []
+    for c in el["content"]:
+        seq.append(("#text", c) if isinstance(c, str) else canon(c))
+    attrs = tuple(sorted(el["attrs"].items(), key=repr))
+    return (tuple(el["name"]), attrs, tuple(seq))
 
 
 def canon(el):
